@@ -31,10 +31,17 @@ def task_names(tier):
         names.append('roundtrip:3.0:' + k)
         if not (k == 'na' or k.startswith('xstr')):
             names.append('roundtrip:2.0:' + k)
-    return names + ['grid', 'framing']
+    return names + ['grid', 'framing', 'writer_document']
 
 
 def run_task(name, tier):
+    if name == 'writer_document':
+        # every value of the document - grid metadata, column metadata, cells - is encoded under the grid's version (so a 2.0 grid spells
+        # Remove the 2.0 way wherever it stands): the document task of the JSON writer (C06)
+        from props import C06
+        r = C06.run_task('document', tier)
+        r['task'] = name
+        return r
     T = Task(name)
     parts = name.split(':')
     globals()['t_' + parts[0]](T, tier, *parts[1:])
